@@ -23,7 +23,7 @@
 /* ------------------------------------------------------------------ */
 /* catalogue                                                            */
 
-struct stream { unsigned char *b; size_t n; char tag[56]; int group; };
+struct stream { unsigned char *b; size_t n; char tag[56]; char cls[40]; int group; };
 static struct stream *cat; static int ncat, capcat;
 static uint64_t *cum;           /* cum[i] = first item index of stream i; cum[ncat] = total */
 static int max_cuts = 1;
@@ -35,8 +35,10 @@ static void add_stream(int group, const char *tag, const char *suffix, const uns
 	if (ncat == capcat) { capcat = capcat ? capcat * 2 : 256; cat = realloc(cat, sizeof(*cat) * (size_t)capcat); }
 	struct stream *s = &cat[ncat++];
 	s->b = malloc(n + 1); memcpy(s->b, b, n); s->b[n] = 0; s->n = n; s->group = group;
-	snprintf(s->tag, sizeof s->tag, "%s", tag);
-	(void)suffix;
+	/* "class|variant": the class names the failure key, the variant only appears in messages */
+	const char *bar = strchr(tag, '|');
+	if (bar) { snprintf(s->cls, sizeof s->cls, "%.*s", (int)(bar - tag), tag); snprintf(s->tag, sizeof s->tag, "%.*s:%s%s", (int)(bar - tag), tag, bar + 1, suffix); }
+	else { snprintf(s->cls, sizeof s->cls, "%s", tag); snprintf(s->tag, sizeof s->tag, "%s%s", tag, suffix); }
 }
 
 struct buf { unsigned char d[4096]; size_t n; };
@@ -100,8 +102,8 @@ static void build_catalogue(int groups)
 		E("hs:host-cl", "Host: a\r\nContent-Length: 3\r\n"),
 		E("hs:ows-none", "X:v\r\nContent-Length:3\r\n"),
 		E("hs:ows-spaces", "Y:   v  \r\nContent-Length:   3   \r\n"),
-		E("hs:ows-tab", "Z:\tv\t\r\nContent-Length: 3\r\n"),
-		E("hs:ows-tab-cl", "Content-Length:\t3\t\r\n"),
+		E("hs:ows-tab|x", "Z:\tv\t\r\nContent-Length: 3\r\n"),
+		E("hs:ows-tab|cl", "Content-Length:\t3\t\r\n"),
 		E("hs:empty-value", "X:\r\nY: \r\nContent-Length: 3\r\n"),
 		E("hs:inner-ws", "X: a  b\tc\r\nContent-Length: 3\r\n"),
 		E("hs:colon-in-value", "X: a:b: c\r\nContent-Length: 3\r\n"),
@@ -113,9 +115,9 @@ static void build_catalogue(int groups)
 		E("hs:obs-fold-cl", "Content-Length:\r\n 3\r\n"),
 		E("hs:obs-fold-cl-digits", "Content-Length: 1\r\n 3\r\n"),
 		E("hs:ws-first-line", " X: a\r\nContent-Length: 3\r\n"),
-		E("hs:ws-colon", "Host : a\r\nContent-Length: 3\r\n"),
-		E("hs:ws-colon-cl", "Content-Length : 3\r\n"),
-		E("hs:tab-colon-cl", "Content-Length\t: 3\r\n"),
+		E("hs:ws-colon|host", "Host : a\r\nContent-Length: 3\r\n"),
+		E("hs:ws-colon|cl-sp", "Content-Length : 3\r\n"),
+		E("hs:ws-colon|cl-tab", "Content-Length\t: 3\r\n"),
 		E("hs:no-colon", "garbage\r\nContent-Length: 3\r\n"),
 		E("hs:empty-name", ": v\r\nContent-Length: 3\r\n"),
 		E("hs:name-with-space", "Na me: v\r\nContent-Length: 3\r\n"),
@@ -124,14 +126,14 @@ static void build_catalogue(int groups)
 		E("hs:bare-cr-sp-value", "X: a\r b\r\nContent-Length: 3\r\n"),
 		E("hs:nul-value", "X: a\0b\r\nContent-Length: 3\r\n"),
 		E("hs:cl-dup-same", "Content-Length: 3\r\nContent-Length: 3\r\n"),
-		E("hs:cl-dup-differ", "Content-Length: 3\r\nContent-Length: 4\r\n"),
-		E("hs:cl-dup-differ-rev", "Content-Length: 4\r\nContent-Length: 3\r\n"),
-		E("hs:cl-dup-differ-0", "Content-Length: 0\r\nContent-Length: 3\r\n"),
+		E("hs:cl-dup-differ|3-4", "Content-Length: 3\r\nContent-Length: 4\r\n"),
+		E("hs:cl-dup-differ|4-3", "Content-Length: 4\r\nContent-Length: 3\r\n"),
+		E("hs:cl-dup-differ|0-3", "Content-Length: 0\r\nContent-Length: 3\r\n"),
 		E("hs:cl-list-same", "Content-Length: 3, 3\r\n"),
 		E("hs:cl-list-differ", "Content-Length: 3, 4\r\n"),
-		E("hs:cl-plus", "Content-Length: +3\r\n"),
-		E("hs:cl-minus-zero", "Content-Length: -0\r\n"),
-		E("hs:cl-negative", "Content-Length: -3\r\n"),
+		E("hs:cl-signed|plus", "Content-Length: +3\r\n"),
+		E("hs:cl-signed|minus-zero", "Content-Length: -0\r\n"),
+		E("hs:cl-signed|negative", "Content-Length: -3\r\n"),
 		E("hs:cl-hex", "Content-Length: 0x3\r\n"),
 		E("hs:cl-trailing-junk", "Content-Length: 3x\r\n"),
 		E("hs:cl-inner-space", "Content-Length: 3 4\r\n"),
@@ -147,8 +149,8 @@ static void build_catalogue(int groups)
 		E("hs:expect-other", "Expect: foo\r\nContent-Length: 3\r\n"),
 		E("hs:conn-close", "Connection: close\r\nContent-Length: 3\r\n"),
 		E("hs:conn-keepalive", "Connection: keep-alive\r\nContent-Length: 3\r\n"),
-		E("hs:te-identity-cl", "Transfer-Encoding: identity\r\nContent-Length: 3\r\n"),
-		E("hs:te-gzip-cl", "Transfer-Encoding: gzip\r\nContent-Length: 3\r\n"),
+		E("hs:te-not-chunked+cl|identity", "Transfer-Encoding: identity\r\nContent-Length: 3\r\n"),
+		E("hs:te-not-chunked+cl|gzip", "Transfer-Encoding: gzip\r\nContent-Length: 3\r\n"),
 		E("hs:many", "A: 1\r\nB: 2\r\nC: 3\r\nD: 4\r\nE: 5\r\nF: 6\r\nG: 7\r\nH: 8\r\nI: 9\r\nJ: 10\r\nK: 11\r\nL: 12\r\nContent-Length: 3\r\n"),
 	};
 	if (groups & G_HS)
@@ -160,18 +162,18 @@ static void build_catalogue(int groups)
 		E("te:chunked", "Transfer-Encoding: chunked\r\n"),
 		E("te:chunked-case", "transfer-encoding: ChUnKeD\r\n"),
 		E("te:chunked-ows", "Transfer-Encoding:   chunked  \r\n"),
-		E("te:gzip-chunked", "Transfer-Encoding: gzip, chunked\r\n"),
-		E("te:gzip-chunked-nospace", "Transfer-Encoding: gzip,chunked\r\n"),
-		E("te:two-fields", "Transfer-Encoding: gzip\r\nTransfer-Encoding: chunked\r\n"),
-		E("te:chunked-gzip", "Transfer-Encoding: chunked, gzip\r\n"),
-		E("te:identity", "Transfer-Encoding: identity\r\n"),
-		E("te:gzip", "Transfer-Encoding: gzip\r\n"),
-		E("te:chunked-param", "Transfer-Encoding: chunked;q=1\r\n"),
+		E("te:list-ending-chunked|gzip", "Transfer-Encoding: gzip, chunked\r\n"),
+		E("te:list-ending-chunked|gzip-nospace", "Transfer-Encoding: gzip,chunked\r\n"),
+		E("te:list-ending-chunked|two-fields", "Transfer-Encoding: gzip\r\nTransfer-Encoding: chunked\r\n"),
+		E("te:final-not-chunked|chunked-gzip", "Transfer-Encoding: chunked, gzip\r\n"),
+		E("te:final-not-chunked|identity", "Transfer-Encoding: identity\r\n"),
+		E("te:final-not-chunked|gzip", "Transfer-Encoding: gzip\r\n"),
+		E("te:final-not-chunked|two-fields", "Transfer-Encoding: chunked\r\nTransfer-Encoding: gzip\r\n"),
 		E("te:chunked-twice", "Transfer-Encoding: chunked, chunked\r\n"),
-		E("te:empty-element", "Transfer-Encoding: , chunked\r\n"),
+		E("te:list-ending-chunked|empty-element", "Transfer-Encoding: , chunked\r\n"),
 		E("te:chunked+cl", "Transfer-Encoding: chunked\r\nContent-Length: 3\r\n"),
 		E("te:cl+chunked", "Content-Length: 3\r\nTransfer-Encoding: chunked\r\n"),
-		E("te:gzip-chunked+cl", "Transfer-Encoding: gzip, chunked\r\nContent-Length: 3\r\n"),
+		E("te:list-ending-chunked|gzip+cl", "Transfer-Encoding: gzip, chunked\r\nContent-Length: 3\r\n"),
 		E("te:expect-100", "Expect: 100-continue\r\nTransfer-Encoding: chunked\r\n"),
 		E("te:conn-close", "Connection: close\r\nTransfer-Encoding: chunked\r\n"),
 	};
@@ -194,12 +196,12 @@ static void build_catalogue(int groups)
 		E("ch:leading-zeros", "003\r\nabc\r\n000\r\n\r\n"),
 		E("ch:data-with-crlf", "5\r\na\r\nbc\r\n0\r\n\r\n"),
 		E("ch:data-looks-like-chunk", "8\r\n0\r\n\r\nGET\r\n0\r\n\r\n"),
-		E("ch:ext-name", "3;x\r\nabc\r\n0\r\n\r\n"),
-		E("ch:ext-name-value", "3;x=y\r\nabc\r\n0\r\n\r\n"),
-		E("ch:ext-quoted", "3;x=\"q;\\\"z\"\r\nabc\r\n0\r\n\r\n"),
-		E("ch:ext-bws", "3 ; x = y\r\nabc\r\n0\r\n\r\n"),
-		E("ch:ext-multi", "3;x=y;z\r\nabc\r\n0\r\n\r\n"),
-		E("ch:ext-last-chunk", "3\r\nabc\r\n0;x=y\r\n\r\n"),
+		E("ch:ext|name", "3;x\r\nabc\r\n0\r\n\r\n"),
+		E("ch:ext|name-value", "3;x=y\r\nabc\r\n0\r\n\r\n"),
+		E("ch:ext|quoted", "3;x=\"q;\\\"z\"\r\nabc\r\n0\r\n\r\n"),
+		E("ch:ext|bws", "3 ; x = y\r\nabc\r\n0\r\n\r\n"),
+		E("ch:ext|multi", "3;x=y;z\r\nabc\r\n0\r\n\r\n"),
+		E("ch:ext|last-chunk", "3\r\nabc\r\n0;x=y\r\n\r\n"),
 		E("ch:trailer", "3\r\nabc\r\n0\r\nT: v\r\n\r\n"),
 		E("ch:trailer-two", "3\r\nabc\r\n0\r\nT: v\r\nU:  w \r\n\r\n"),
 		E("ch:trailer-cl", "3\r\nabc\r\n0\r\nContent-Length: 9\r\n\r\n"),
@@ -214,9 +216,9 @@ static void build_catalogue(int groups)
 		E("ch:size-plus", "+3\r\nabc\r\n0\r\n\r\n"),
 		E("ch:size-trailing-junk", "3g\r\nabc\r\n0\r\n\r\n"),
 		E("ch:size-not-hex", "g\r\nabc\r\n0\r\n\r\n"),
-		E("ch:size-empty-line-first", "\r\n3\r\nabc\r\n0\r\n\r\n"),
-		E("ch:size-trailing-space", "3 \r\nabc\r\n0\r\n\r\n"),
-		E("ch:size-trailing-tab", "3\t\r\nabc\r\n0\r\n\r\n"),
+		E("ch:blank-line-for-chunk-size|first", "\r\n3\r\nabc\r\n0\r\n\r\n"),
+		E("ch:size-trailing-ws|space", "3 \r\nabc\r\n0\r\n\r\n"),
+		E("ch:size-trailing-ws|tab", "3\t\r\nabc\r\n0\r\n\r\n"),
 		E("ch:size-space-junk", "3 x\r\nabc\r\n0\r\n\r\n"),
 		E("ch:size-17-hexdigits", "FFFFFFFFFFFFFFFFF\r\nabc\r\n0\r\n\r\n"),
 		E("ch:size-2pow64-plus3", "10000000000000003\r\nabc\r\n0\r\n\r\n"),
@@ -226,7 +228,7 @@ static void build_catalogue(int groups)
 		E("ch:no-crlf-after-data", "3\r\nabc0\r\n\r\n"),
 		E("ch:extra-byte-after-data", "3\r\nabcd\r\n0\r\n\r\n"),
 		E("ch:lf-only-after-data-junk", "3\r\nabc\rX\n0\r\n\r\n"),
-		E("ch:extra-blank-line", "3\r\nabc\r\n\r\n0\r\n\r\n"),
+		E("ch:blank-line-for-chunk-size|between-chunks", "3\r\nabc\r\n\r\n0\r\n\r\n"),
 		E("ch:bare-lf", "3\nabc\n0\n\n"),
 		E("ch:trunc-size", "3"),
 		E("ch:trunc-data", "3\r\nab"),
@@ -245,16 +247,16 @@ static void build_catalogue(int groups)
 
 	/* ---- methods libevent registers without a body × body framing ---- */
 	static const struct ent bls[] = {
-		E("bl:GET", "GET /p HTTP/1.1"), E("bl:HEAD", "HEAD /p HTTP/1.1"), E("bl:TRACE", "TRACE /p HTTP/1.1"),
+		E("bl:GET", "GET /p HTTP/1.1"), E("bl:no-body-flag|HEAD", "HEAD /p HTTP/1.1"), E("bl:no-body-flag|TRACE", "TRACE /p HTTP/1.1"),
 		E("bl:DELETE", "DELETE /p HTTP/1.1"), E("bl:OPTIONS", "OPTIONS /p HTTP/1.1"), E("bl:CONNECT", "CONNECT h:1 HTTP/1.1"),
-		E("bl:EXTN", "EXTN /p HTTP/1.1"), E("bl:EXTB", "EXTB /p HTTP/1.1"), E("bl:unknown-method", "FOO /p HTTP/1.1"),
+		E("bl:no-body-flag|EXTN", "EXTN /p HTTP/1.1"), E("bl:EXTB", "EXTB /p HTTP/1.1"), E("bl:unknown-method", "FOO /p HTTP/1.1"),
 	};
 	if (groups & G_BL)
 		for (size_t i = 0; i < sizeof bls / sizeof bls[0]; i++) {
 			char tag[56];
-			snprintf(tag, sizeof tag, "%s+cl", bls[i].tag);
+			snprintf(tag, sizeof tag, strchr(bls[i].tag, '|') ? "%s-cl" : "%s|cl", bls[i].tag);
 			add_msg(G_BL, tag, bls[i].text, "Content-Length: 3\r\n", 19, "abc", 3, 1, 1);
-			snprintf(tag, sizeof tag, "%s+chunked", bls[i].tag);
+			snprintf(tag, sizeof tag, strchr(bls[i].tag, '|') ? "%s-chunked" : "%s|chunked", bls[i].tag);
 			add_msg(G_BL, tag, bls[i].text, "Transfer-Encoding: chunked\r\n", 28, "3\r\nabc\r\n0\r\n\r\n", 13, 1, 0);
 		}
 
@@ -431,9 +433,10 @@ static void collapse(const char *in, size_t n, char *out, size_t cap)
 static void failk(const char *oracle, const char *detail, const struct stream *st, const char *fmt, ...)
 {
 	char key[200], msg[1000]; va_list ap;
-	if (detail) snprintf(key, sizeof key, "C23/%s/%s/%s", oracle, detail, st->tag);
-	else snprintf(key, sizeof key, "C23/%s/%s", oracle, st->tag);
-	va_start(ap, fmt); vsnprintf(msg, sizeof msg, fmt, ap); va_end(ap);
+	if (detail) snprintf(key, sizeof key, "C23/%s/%s/%s", oracle, detail, st->cls);
+	else snprintf(key, sizeof key, "C23/%s/%s", oracle, st->cls);
+	int o = snprintf(msg, sizeof msg, "[stream %s] ", st->tag);
+	va_start(ap, fmt); vsnprintf(msg + o, sizeof msg - (size_t)o, fmt, ap); va_end(ap);
 	mc_fail(key, "%s", msg);
 }
 
@@ -563,7 +566,7 @@ static void item(uint64_t it)
 	if (seg == nsegs(st->n) - 1) MC_COUNT("a_bytewise_compared");
 	if (!o.text || !base_text || o.len != base_len || memcmp(o.text, base_text, o.len)) {
 		char key[160];
-		snprintf(key, sizeof key, "C23/segmentation-dependent/%s", st->tag);
+		snprintf(key, sizeof key, "C23/segmentation-dependent/%s", st->cls);
 		mc_fail(key, "stream class %s, segmentation %llu of %llu: outcome\n  %s\ndiffers from the unsegmented outcome\n  %s", st->tag,
 		    (unsigned long long)seg, (unsigned long long)nsegs(st->n), o.text ? o.text : "(none)", base_text ? base_text : "(none)");
 	}
